@@ -983,7 +983,7 @@ def m_zip(I, a, t, c):
     return Agg('iter', 0, [[Agg('tuple', 0, [p, q]) for p, q in zip(x, y)], 0])
 
 
-@model('<I as std::iter::IntoIterator>::into_iter')
+@model('<I as std::iter::IntoIterator>::into_iter', 'std::iter::IntoIterator::into_iter')
 def m_into_iter(I, a, t, c):
     v = a[0]
     if isinstance(v, Agg) and v.kind in ('iter', 'adt:std::ops::Range'):
